@@ -138,8 +138,7 @@ def run(ctx):
             cat.history_tie(ctx, runner, drv, broken)
 
     # ------------------------------------------------------------------ 3d. generated contracts against the library
-    if cinfo is not None:
-        c11_contracts.run_tie(ctx, broken, cinfo)
+    c11_contracts.run_tie(ctx, broken, cinfo)
 
     # ------------------------------------------------------------------ 4. catalogue
     cat.run_catalogue(ctx, runner)
